@@ -897,7 +897,7 @@ func run(t *testing.T, sc Scenario) *core.Result {
 		}
 		sys.WireClient(c, cliNode, w.Net, nil)
 		for i := 0; i < sc.PortInUse; i++ {
-			w.Net.FailListenPacket[fmt.Sprintf(cliIP+":%d", 20000+2*int(core.H(sc.Seed, "busy", uint64(i))%16))] = true
+			w.Net.FailListenPacket[fmt.Sprintf(cliIP+":%d", 20000+int(core.H(sc.Seed, "busy", uint64(i))%32))] = true // even (RTP) and odd (RTCP) ports
 		}
 		npk := 0
 		c.OnPacketsLost = func(uint64) {}
